@@ -16,6 +16,7 @@
     actions / changes   the `action` / `onChange` events of a log.
   Tie to the source: NV.Gen.Manager (constants, the two comparisons) is regenerated on every run.
 -/
+import NV.Model.SrcUrl
 import NV.Model.RealEp
 import NV.Gen.PkgState
 import NV.Lemmas.Manager
@@ -420,5 +421,50 @@ theorem realep_path_profile (prof : String) (h : prof ≠ "-") : pathOf "-" prof
   simp [pathOf, h]
 
 end RealEp
+
+/-! ### the list provider (`SourceURLProvider`): the candidates of an election are the endpoints the fetched document lists -/
+section SrcUrl
+open NV.SrcUrl
+
+theorem srcurl_pick_spec (prev : List (Nat × SrcUrl.Ep)) (next : Nat) (e : SrcUrl.Ep) : (SrcUrl.pick prev next e).1.2 = e := by
+  unfold SrcUrl.pick
+  cases h : (prev.filter fun p => p.2 == e).getLast? with
+  | none => rfl
+  | some p =>
+    have hm : p ∈ prev.filter fun p => p.2 == e := List.mem_of_getLast? h
+    have := (List.mem_filter.mp hm).2
+    simpa using this
+
+theorem srcurl_build_spec (prev : List (Nat × SrcUrl.Ep)) : ∀ (doc : List SrcUrl.Ep) (next : Nat), (SrcUrl.build prev next doc).1.map (·.2) = doc := by
+  intro doc
+  induction doc with
+  | nil => intro _; rfl
+  | cons e es ih =>
+    intro next
+    simp only [SrcUrl.build, List.map_cons]
+    rw [srcurl_pick_spec, ih]
+
+/-- whatever was returned before, a successful call returns, position by position, endpoints EQUAL to the ones the document lists -/
+theorem srcurl_candidates_are_the_documents (s : SrcUrl.St) (doc : List SrcUrl.Ep) :
+    ((SrcUrl.step s (some doc)).2.map fun objs => objs.map (·.2)) = some doc := by
+  simp [SrcUrl.step, srcurl_build_spec]
+
+/-- a failed call changes nothing -/
+theorem srcurl_failed_fetch_keeps_state (s : SrcUrl.St) : (SrcUrl.step s none).1 = s := rfl
+
+/-- an element equal to one of the previous list is that earlier object, not a new one -/
+theorem srcurl_equal_is_reused (prev : List (Nat × SrcUrl.Ep)) (next : Nat) (e : SrcUrl.Ep) (p : Nat × SrcUrl.Ep) (hp : p ∈ prev) (he : p.2 = e) :
+    (SrcUrl.pick prev next e).1 ∈ prev ∧ (SrcUrl.pick prev next e).2 = next := by
+  unfold SrcUrl.pick
+  cases h : (prev.filter fun p => p.2 == e).getLast? with
+  | none =>
+    exfalso
+    have : p ∈ prev.filter fun p => p.2 == e := List.mem_filter.mpr ⟨hp, by simp [he]⟩
+    have hne : (prev.filter fun p => p.2 == e) ≠ [] := List.ne_nil_of_mem this
+    exact hne (List.getLast?_eq_none_iff.mp h)
+  | some q =>
+    exact ⟨(List.mem_filter.mp (List.mem_of_getLast? h)).1, rfl⟩
+
+end SrcUrl
 
 end NV.C08
